@@ -22,7 +22,7 @@ RULE = (
 ASSUMPTIONS = [
     "exact comparison uses == on every entry (signed zeros of structural zeros are not distinguished); weights |w| <= 100 and data magnitudes within 2^+-40, so no overflow/underflow of a double occurs",
 ]
-TIERS = {"quick": {"worlds": 2500, "wall": 150, "limit": 60.0}, "thorough": {"worlds": 60000, "wall": 1700, "limit": 120.0}}
+TIERS = {"quick": {"worlds": 4500, "wall": 150, "limit": 60.0}, "thorough": {"worlds": 60000, "wall": 1700, "limit": 120.0}}
 GATES = ("nontrivial", "worlds.int_bounds", "worlds.dup_coo", "worlds.narrow_weight_dtype", "worlds.start_none_or_scalar", "worlds.shuffled_coo_order", "worlds.int_dtype", "points.run_iterates", "points.probes", "scaling.Custom", "scaling.Nominal", "scaling.GradJac", "scaling.KKT", "rows.offset", "rows.slack")
 
 
